@@ -330,7 +330,7 @@ QueryCountLaw ==
 CodeStricter == \A t \in Topics, c \in Channels \cup {""} : CodeAllows(grants, t, c) => Granted(grants, t, c)
 \* the lattice keeps every comparison away from the expiry instant
 NeverOnExpiry == authed => exp # now
-ClosedIsFinal == [][st = "closed" => UNCHANGED svars]_vars
+\* (a closed connection takes no further step: Cmd is guarded by st # "closed")
 PolicyFixed   == [][policy' = policy]_vars
 
 TypeOK == /\ ValidPolicy(policy)
